@@ -47,6 +47,7 @@ type Cfg struct {
 	InitMeta   int     `json:"init_meta"`
 	PQObserver bool    `json:"pq_observer,omitempty"` // queue opened with a statistics observer
 	IDBase     uint64  `json:"id_base,omitempty"`     // first event id of the (new) queue
+	PQRootOff  int     `json:"pq_root_off,omitempty"` // queue header embedded at this offset of a shared root page
 	Prealloc   bool    `json:"prealloc,omitempty"`
 	WALLimit   int     `json:"wal_limit"`
 	GrowPct    int     `json:"grow_pct,omitempty"`
